@@ -86,6 +86,28 @@ CLAIMED = {
         "level": "Decides for a SYMBOLIC raw word / temperature: reader = raw/18 (C) and (raw+320)/10 (F), each writer is the exact rational inverse of the reader with positive slope and int truncation, sync = async; symbol and limits follow the unit and denote the same temperatures; current_operation equals the stated decision on all 27 flag/ordering combinations.",
         "note": "NOT decided: IEEE-754 exactness of the read-back for all 65 536 words and the 'within one device step' bound for non-representable values (numerical properties of float arithmetic; outside static reach here).",
     },
+    "C15": {
+        "technique": "CFG guard/dominance rules on the discovery callback (de-dup, filter, paired appends, found flag) and on the wait loop (bound, early exits, yield); acquire/release pairing with exceptional edges for the clean-up",
+        "level": "Decides structurally: a reply is listed only if its identifier was not seen and (when one was requested) equals the requested identifier; identifier and descriptor lists stay in step; the found flag is raised only after listing and only for filtered runs; the wait loop is bounded by the discovery timeout with exactly the two stated early exits and yields every iteration; transport and helper tasks are released on every exit incl. cancellation (defect repaired under C10).",
+        "note": "NOT decided: return times relative to the configured waits (clock); behaviour for identifiers that are not valid latin-1.",
+    },
+    "C17": {
+        "technique": "set comparison of the three configuration tables (class-body constants); shape/dominance rules on set_config_mode and config_sleep; who-sleeps-how rule over every sleep/wait call site; guard rule on the active-mode flag",
+        "level": "Decides: active and idle tables define exactly the base members, CONFIG_MEMBERS is computed from the base, the switch copies every member unconditionally from one freshly built table without suspending and wakes sleepers only after the copy; config_sleep waits on the shared future with exactly the requested timeout and renews it when done; no configuration-valued delay uses a plain sleep; active mode = some pump or blower is on.",
+        "note": "NOT decided: wake-up latency and over-sleep as measured time (asyncio.wait semantics assumed).",
+    },
+    "C19": {
+        "technique": "skeleton alignment of the shell's log-line templates (f-strings with the spa's format templates inlined) against the regex ASTs of the snapshot reader; shape rules on the block dump writer/reader; regexes extracted from source applied to the shipped snapshot files (data check)",
+        "level": "Narrow, as stated: the five version lines and the header the shell writes are read back by the reader's regex table (literal skeletons align, integer holes land in \\d+ groups); the hex-list dump and its parser agree; traffic-log segments go through the real STATV decoder; all 34 shipped snapshots name existing platform/cfg/log modules and carry full 1024-byte blocks.",
+        "note": "NOT decided: byte-exact round trip of arbitrary blocks and version tuples through repr/hex/str/re (value-level), and re-assembly of arbitrary segmentations of a traffic log; regex features outside the literal/group/whitespace fragment give ANALYSIS-ERROR, not a verdict.",
+    },
+    "C20": {
+        "technique": "who-may-write + lock-scope rules on the send queue; guard/dominance rules on throttle, first-match selection and retry life-cycle; exception-containment rule; sibling cross-check of response branches over the request-capable handler classes; callback-chain rule for the handshake",
+        "level": "Structural necessary conditions of the blocking stack: single tail-append producer and head-pop consumer under the lock; throttle test dominates the one sendto per pass; first accepting handler wins with immediate break, handle then handled on it only, exceptions contained; retry decrements once, refuses at 0, failure handler only after refusal, flagged handlers removed; every request-capable handler flags itself on its response; the handshake chain registers and queues each step's request.",
+        "note": "NOT decided: pacing in seconds, real thread schedules, 'exactly N retransmissions' as counted events, handshake completion under loss patterns (runtime).",
+    },
 }
 
 NOT_APPLICABLE = {f"C{n:02d}": PENDING for n in range(1, 21) if f"C{n:02d}" not in CLAIMED}
+# every property has at least one structural clause that is decided statically; the clauses that are
+# NOT decided are listed per check in level_note and in DESIGN.md section 6.
